@@ -431,3 +431,20 @@ Definition fx_progs : list (list op) :=
 Definition fx_sched : list nat := [0; 1; 1; 0; 0; 1; 0; 1; 1; 0; 0; 1; 1; 1; 0; 1; 0; 1]%nat.
 Lemma fx_quiescent : fquiescent (fconf_run true false false (fconf_init fx_progs) fx_sched) = true.
 Proof. vm_compute. reflexivity. Qed.
+
+Theorem conc_fetch_matches_file (ig ov : bool) (progs : list (list op)) (sched : list nat) d hash len :
+  Forall untitled (concat progs) -> Forall no_alias (concat progs) ->
+  snd (file_step true ig ov (fc_store (fconf_run true ig ov (fconf_init progs) sched)) (Fetch d)) = FO (OBytes hash len) ->
+  hash = d_dig d.
+Proof.
+  intros Hun Hna. pose proof (finv_run true ig ov progs sched Hun _ (finv_init true ig ov progs)) as Hinv.
+  destruct Hinv as [Hperm _ Hcore _ _].
+  set (cf := fconf_run true ig ov (fconf_init progs) sched) in *.
+  assert (HnaL : Forall no_alias (map snd (fc_log cf))).
+  { apply Forall_forall. intros o Ho. rewrite Forall_forall in Hna. apply Hna.
+    eapply Permutation_in; [exact Hperm|]. apply in_or_app. now left. }
+  pose proof (file_run_inv ig ov (map snd (fc_log cf)) _ HnaL file_inv_init) as Hq.
+  rewrite (fcore_eq_graph _ _ Hcore). cbn [file_step]. rewrite file_fetch_graph.
+  destruct (file_fetch d (seq_fstate true ig ov (map snd (fc_log cf)))) as [c|] eqn:Ef; [|discriminate].
+  destruct (file_fetch_inv _ _ _ Hq Ef) as [Hh _]. cbn [snd]. intro X. injection X as <- _. exact Hh.
+Qed.
